@@ -1,5 +1,210 @@
-(* Props/C16.v — PLACEHOLDER created by the check-writer for local testing only; to be replaced by the
-   real theorems of property C16. *)
-Example C16_placeholder : True.
-Proof. exact I. Qed.
-Print Assumptions C16_placeholder.
+(* Props/C16.v — property C16: a key keeps its identity through password changes.   PARTIAL.
+   Statements only; proofs are in Proofs/KeyringFacts.v (and CombineRand.v for the salts).
+
+   Model: the COMPUTATION of cli/src/commands.rs::{gen_key, change_pass, extract_pub} (Model/Keyring.v) — not
+   their terminal / file handling.  [change_pass_seq P str0 pw0 steps] applies change-pass repeatedly, each step
+   (new_pw, salt') unlocking with the then-current password and re-locking under the new password and that
+   step's salt; it returns every intermediate string.  See Props/C15.v for [kr_blob], [version], [bytes_ok],
+   [prims_bytes_ok].
+
+   Proved for every history of change-pass steps over arbitrary passwords (empty, long, any bytes) and salts:
+   identity is preserved, every intermediate string is usable, the salt of step i is embedded in string i;
+   extract-pub prints the PublicKey line that generation wrote; all outputs are explicit functions in which the
+   private key occurs only as AEAD plaintext (inside kr_blob) and as argument of the public-key derivation.
+   PARTIAL / not proved here:
+   * "earlier passwords stop working unless equal to the newest": cryptographic — C16_old_password_stops_partial
+     needs the premise that the AEAD open under the old password's derived key fails;
+   * "every change uses a NEW salt": the model takes the salt as an input; that successive inputs are distinct
+     draws of the random stream is C07_draws_disjoint / C07_drawn_values_distinct (stream model), and that the
+     OS generator's blocks differ is not modelled;
+   * "the raw private key never appears in any output" is given in the form of the closed-form output lemmas
+     (C16_*_output): that AEAD output and X25519 output do not reveal their secret input is cryptographic. *)
+From Kestrel Require Import Bytes BytesFacts Outcome Prims.
+From Kestrel.gen Require Import Extracted.
+From Kestrel.Spec Require Import Base64 Base64Facts.
+From Kestrel.Model Require Import AeadWrap KeyringText KeyringSpec Keyring Rand.
+From Kestrel.Proofs Require Import KeyringRefine KeyringFacts CombineRand CombineKeyring.
+Local Open Scope N_scope.
+
+(* IDENTITY.  For every 32-byte private key, initial password and salt, and EVERY list of change-pass steps (new password, 32-byte salt): locking succeeds, the whole sequence of changes succeeds, every intermediate string unlocks under ITS password to the ORIGINAL key, is accepted by EncodedSk::try_from and embeds that step's salt at bytes 4..36, and the final string unlocks under the last password to the original key *)
+Theorem C16_identity_preserved :
+  forall P : prims,
+  aead_ok P ->
+  hash_ok P ->
+  prims_bytes_ok P ->
+  forall (sk : list N) (pw0 : bytes) (salt0 : list N) (steps : list (bytes * list N)),
+  length sk = 32%nat ->
+  bytes_ok sk ->
+  length salt0 = 32%nat ->
+  bytes_ok salt0 ->
+  Forall (fun st : bytes * list N => length (snd st) = 32%nat /\ bytes_ok (snd st)) steps ->
+  exists (str0 : text) (outs : list text),
+    lock_private_key P sk pw0 salt0 = Ok str0 /\
+    change_pass_seq P str0 pw0 steps = Ok outs /\
+    Forall2
+      (fun (out : text) (st : bytes * list N) =>
+       unlock_private_key P out (fst st) = Ok sk /\
+       sk_string_ok out = true /\
+       (exists b : bytes, b64_decode out = Some b /\ firstn 32 (skipn 4 b) = snd st)) outs steps /\
+    unlock_private_key P (last outs str0) (last (map fst steps) pw0) = Ok sk.
+Proof. exact (change_pass_identity). Qed.
+Print Assumptions C16_identity_preserved.
+
+(* closed form: string i is the base64 of the blob of the ORIGINAL key under step i's password and salt — nothing else of the history enters *)
+Theorem C16_change_pass_seq_output :
+  forall P : prims,
+  aead_ok P ->
+  hash_ok P ->
+  prims_bytes_ok P ->
+  forall sk : list N,
+  length sk = 32%nat ->
+  bytes_ok sk ->
+  forall (steps : list (bytes * list N)) (locked : text) (pw : bytes),
+  sk_string_ok locked = true ->
+  unlock_private_key P locked pw = Ok sk ->
+  Forall (fun st : bytes * list N => length (snd st) = 32%nat /\ bytes_ok (snd st)) steps ->
+  change_pass_seq P locked pw steps =
+  Ok (map (fun st : bytes * bytes => b64_encode (kr_blob P sk (fst st) (snd st))) steps).
+Proof. exact (change_pass_seq_eq). Qed.
+Print Assumptions C16_change_pass_seq_output.
+
+(* one change-pass, the printed line: "PrivateKey = " ++ base64(version ++ new salt ++ AEAD(.., sk)): the private key occurs only as AEAD plaintext *)
+Theorem C16_change_pass_output :
+  forall P : prims,
+  hash_ok P ->
+  forall (locked : text) (old_pw new_pw : bytes) (salt' : list N) (sk : bytes),
+  sk_string_ok locked = true ->
+  unlock_private_key P locked old_pw = Ok sk ->
+  length salt' = 32%nat ->
+  change_pass P locked old_pw new_pw salt' =
+  Ok (s_priv ++ s_sp_eq_sp ++ b64_encode (kr_blob P sk new_pw salt')).
+Proof. exact (change_pass_eq). Qed.
+Print Assumptions C16_change_pass_output.
+
+(* if the old password does not unlock, change-pass fails with that keyring error and produces no new string *)
+Theorem C16_change_pass_wrong_old_password :
+  forall (P : prims) (locked : text) (old_pw new_pw salt' : bytes) (e : kerr),
+  sk_string_ok locked = true ->
+  unlock_private_key P locked old_pw = Err e ->
+  change_pass P locked old_pw new_pw salt' = Err (CKeyring e).
+Proof. exact (change_pass_unlock_err). Qed.
+Print Assumptions C16_change_pass_wrong_old_password.
+
+(* a string EncodedSk::try_from refuses is refused *)
+Theorem C16_change_pass_bad_string :
+  forall (P : prims) (locked : text) (old_pw new_pw salt' : bytes),
+  sk_string_ok locked = false -> change_pass P locked old_pw new_pw salt' = Err CBadPrivateKey.
+Proof. exact (change_pass_bad_string). Qed.
+Print Assumptions C16_change_pass_bad_string.
+
+(* PARTIAL: the newest locked string (of sk under pw, salt) unlocks with pw, and ANY other password pw' applied to it gives exactly PrivateKeyDecrypt — under the premise that the AEAD open of the honest ciphertext under scrypt(pw', salt) fails (the cryptographic step: an earlier password different from the newest derives a different key) *)
+Theorem C16_old_password_stops_partial :
+  forall P : prims,
+  aead_ok P ->
+  hash_ok P ->
+  prims_bytes_ok P ->
+  forall (sk : list N) (pw : bytes) (salt : list N) (pw' : bytes),
+  length sk = 32%nat ->
+  bytes_ok sk ->
+  length salt = 32%nat ->
+  bytes_ok salt ->
+  p_open P (kr_key P pw' salt) (zeros 12) x_kr_private_key_version
+    (p_seal P (kr_key P pw salt) (zeros 12) x_kr_private_key_version sk) = None ->
+  exists str : text,
+    lock_private_key P sk pw salt = Ok str /\
+    sk_string_ok str = true /\
+    unlock_private_key P str pw = Ok sk /\ unlock_private_key P str pw' = Err PrivateKeyDecrypt.
+Proof. exact (other_password_rejected_partial). Qed.
+Print Assumptions C16_old_password_stops_partial.
+
+(* EXTRACT-PUB = GENERATION.  For every valid name, key, password, salt: key generation produces serialize_key name epk esk, extract_pub on esk with the password prints a line, that line is "PublicKey = " ++ epk, and it is LITERALLY the PublicKey line of the text generation wrote *)
+Theorem C16_extract_pub :
+  forall P : prims,
+  aead_ok P ->
+  hash_ok P ->
+  prims_bytes_ok P ->
+  forall (name : text) (sk : list N) (pw : bytes) (salt : list N),
+  valid_key_name name = true ->
+  length sk = 32%nat ->
+  bytes_ok sk ->
+  length salt = 32%nat ->
+  bytes_ok salt ->
+  exists epk esk line : text,
+    gen_key_text P name sk pw salt = Ok (serialize_key name epk esk) /\
+    extract_pub P esk pw = Ok line /\
+    line = s_pub ++ s_sp_eq_sp ++ epk /\
+    serialize_key name epk esk =
+    s_hdr ++
+    [c_nl] ++
+    s_name ++ s_sp_eq_sp ++ name ++ [c_nl] ++ line ++ [c_nl] ++ s_priv ++ s_sp_eq_sp ++ esk ++ [c_nl].
+Proof. exact (extract_pub_matches_gen). Qed.
+Print Assumptions C16_extract_pub.
+
+(* closed form: extract-pub prints "PublicKey = " ++ base64(X25519 public key of the unlocked private key ++ first 4 bytes of its SHA-256) — the keyring encoding of the public key of THAT private key *)
+Theorem C16_extract_pub_output :
+  forall P : prims,
+  aead_ok P ->
+  hash_ok P ->
+  forall (locked : text) (pw sk : bytes),
+  sk_string_ok locked = true ->
+  unlock_private_key P locked pw = Ok sk ->
+  extract_pub P locked pw = Ok (s_pub ++ s_sp_eq_sp ++ b64_encode (pk_blob P (dh_pub P sk))).
+Proof. exact (extract_pub_eq). Qed.
+Print Assumptions C16_extract_pub_output.
+
+(* closed form of key generation's output: the private key occurs only under the public-key derivation and as AEAD plaintext *)
+Theorem C16_gen_key_output :
+  forall P : prims,
+  hash_ok P ->
+  forall (name : text) (sk : list N) (pw : bytes) (salt : list N),
+  valid_key_name name = true ->
+  length sk = 32%nat ->
+  length salt = 32%nat ->
+  gen_key_text P name sk pw salt =
+  Ok (serialize_key name (b64_encode (pk_blob P (dh_pub P sk))) (b64_encode (kr_blob P sk pw salt))).
+Proof. exact (gen_key_text_eq). Qed.
+Print Assumptions C16_gen_key_output.
+
+(* a string EncodedSk::try_from refuses is refused *)
+Theorem C16_extract_pub_bad_string :
+  forall (P : prims) (locked : text) (pw : bytes),
+  sk_string_ok locked = false -> extract_pub P locked pw = Err CBadPrivateKey.
+Proof. exact (extract_pub_bad_string). Qed.
+Print Assumptions C16_extract_pub_bad_string.
+
+(* a key generated into a keyring (name and encoded key not yet present) parses back as the last entry, unlocks with its password to the drawn private key, its public key decodes to the X25519 public key of that private key, and extract-pub prints it *)
+Theorem C16_generated_keys_usable :
+  forall P : prims,
+  aead_ok P ->
+  hash_ok P ->
+  prims_bytes_ok P ->
+  forall (t0 : text) (ks0 : list entry) (name : text) (sk : list N) (pw : bytes) 
+    (salt : list N) (txt epk : text),
+  gen_name_ok name ->
+  length sk = 32%nat ->
+  bytes_ok sk ->
+  length salt = 32%nat ->
+  bytes_ok salt ->
+  parse_config pk_string_ok sk_string_ok t0 = Ok ks0 ->
+  gen_key_text P name sk pw salt = Ok txt ->
+  encode_public_key P (dh_pub P sk) = Ok epk ->
+  ~ In name (map k_name ks0) ->
+  ~ In epk (map k_pub ks0) ->
+  exists esk : text,
+    parse_config pk_string_ok sk_string_ok (t0 ++ [c_nl] ++ txt) =
+    Ok (ks0 ++ [{| k_name := name; k_pub := epk; k_priv := Some esk |}]) /\
+    unlock_private_key P esk pw = Ok sk /\
+    decode_public_key P epk = Ok (dh_pub P sk) /\ extract_pub P esk pw = Ok (s_pub ++ s_sp_eq_sp ++ epk).
+Proof. exact (generated_keys_usable). Qed.
+Print Assumptions C16_generated_keys_usable.
+
+(* "every change uses a new salt", in the stream model of Model/Rand.v: all values drawn in a history (each change-pass draws one lock salt, each generation a private key then a lock salt) are pairwise distinct if the stream's blocks are — see Props/C07.v for what is not modelled *)
+Theorem C16_salts_are_distinct_draws :
+  forall (stream : nat -> bytes) (ops : list op) (c : nat),
+  (forall i j : nat,
+   (c <= i < c + total_draws ops)%nat ->
+   (c <= j < c + total_draws ops)%nat -> stream i = stream j -> i = j) ->
+  NoDup (map d_value (all_draws (fst (run_history stream c ops)))).
+Proof. exact (drawn_values_distinct). Qed.
+Print Assumptions C16_salts_are_distinct_draws.
+
